@@ -1220,6 +1220,211 @@ def check_fresh(run: Run, prog: Program) -> None:
 
 
 # ---------------------------------------------------------------------------------------------
+def scalarise_fixed_lists(root: ast.AST, known: dict[str, int] | None = None) -> bool:
+    """Analysis-only normal form for code written over a FIXED-LENGTH list (`rx = [a, b, c]`, `xs = [await r.receive() for r in rx]`,
+    `for i, r in enumerate(rx): ... xs[i] = ...`, `p, q, r = xs`): every such list becomes n scalars `L__k`, loops over it are
+    unrolled (loop variables bound at the head of each copy, an index variable that the body does not assign replaced by its
+    constant in subscripts), comprehensions over it are expanded in order.  The rewrite keeps the evaluation order and the
+    binding structure -- in particular a loop body that assigns to its loop VARIABLE still assigns to that variable only, not to
+    the slot it was read from.  A list that is used in any other way (passed on, mutated, sliced, indexed by something else)
+    makes the function ineligible: nothing is changed and False is returned (the caller's rules then fail closed as before).
+    `known`: attributes that are fixed-length tuples by declaration (`self._streams: tuple[E, E, E]`), text -> length: a
+    comprehension over one of them is a display of `<attr>[0]`, `<attr>[1]`, ..."""
+    import copy
+
+    known = known or {}
+
+    work = copy.deepcopy(root)
+
+    def suites(node: ast.AST) -> Any:
+        for f_ in ("body", "orelse", "finalbody"):
+            b = getattr(node, f_, None)
+            if isinstance(b, list) and b and isinstance(b[0], ast.stmt):
+                yield b
+        for h in getattr(node, "handlers", []) or []:
+            yield h.body
+
+    def stores(name: str, node: ast.AST) -> int:
+        return sum(1 for x in ast.walk(node) if isinstance(x, ast.Name) and x.id == name and isinstance(x.ctx, (ast.Store, ast.Del)))
+
+    # ---- 1. the fixed-length lists: bound once, to a display / a comprehension over a known list / another known list
+    length: dict[str, int] = {}
+    for _ in range(4):
+        for st in ast.walk(work):
+            if not (isinstance(st, ast.Assign) and len(st.targets) == 1 and isinstance(st.targets[0], ast.Name)) and not (
+                    isinstance(st, ast.AnnAssign) and isinstance(st.target, ast.Name) and st.value is not None):
+                continue
+            tgt = st.targets[0] if isinstance(st, ast.Assign) else st.target
+            v = st.value
+            if tgt.id in length or stores(tgt.id, work) != 1:  # type: ignore[union-attr]
+                continue
+            if isinstance(v, (ast.List, ast.Tuple)) and 2 <= len(v.elts) <= 6 and not any(isinstance(e, ast.Starred) for e in v.elts):
+                length[tgt.id] = len(v.elts)  # type: ignore[union-attr]
+            elif isinstance(v, ast.ListComp) and len(v.generators) == 1 and not v.generators[0].ifs and isinstance(v.generators[0].iter, ast.Name) \
+                    and v.generators[0].iter.id in length and isinstance(v.generators[0].target, ast.Name):
+                length[tgt.id] = length[v.generators[0].iter.id]  # type: ignore[union-attr]
+            elif isinstance(v, ast.ListComp) and len(v.generators) == 1 and not v.generators[0].ifs and u(v.generators[0].iter) in known \
+                    and isinstance(v.generators[0].target, ast.Name):
+                length[tgt.id] = known[u(v.generators[0].iter)]  # type: ignore[union-attr]
+            elif isinstance(v, ast.Name) and v.id in length:
+                length[tgt.id] = length[v.id]  # type: ignore[union-attr]
+    if not length:
+        return False
+
+    def slot(name: str, k: int, ctx: ast.expr_context, at: ast.AST) -> ast.Name:
+        return ast.copy_location(ast.Name(id=f"{name}__{k}", ctx=ctx), at)
+
+    def subst(node: ast.AST, mapping: dict[str, ast.AST]) -> ast.AST:
+        """A copy of `node` with the (Load) names of `mapping` replaced."""
+        class S(ast.NodeTransformer):
+            def visit_Name(self, n: ast.Name) -> ast.AST:  # noqa: N802
+                if isinstance(n.ctx, ast.Load) and n.id in mapping:
+                    return ast.copy_location(copy.deepcopy(mapping[n.id]), n)
+                return n
+        return S().visit(copy.deepcopy(node))
+
+    def plain(e: ast.AST) -> bool:
+        return not any(isinstance(x, (ast.ListComp, ast.SetComp, ast.DictComp, ast.GeneratorExp, ast.Lambda)) for x in ast.walk(e))
+
+    # ---- 2. unroll the loops over them
+    def loop_plan(st: ast.For) -> tuple[int, list[tuple[ast.AST, Any]]] | None:
+        """(n, [(target, k -> value expression)]) for `for x in L`, `for i, x in enumerate(L)`, `for a, b in zip(L, M)`,
+        `for i in range(len(L))`."""
+        it, tg = st.iter, st.target
+        if isinstance(it, ast.Name) and it.id in length and isinstance(tg, ast.Name):
+            return length[it.id], [(tg, lambda k, nm=it.id: slot(nm, k, ast.Load(), st))]
+        if isinstance(it, ast.Call) and isinstance(it.func, ast.Name) and not it.keywords:
+            if it.func.id == "enumerate" and len(it.args) == 1 and isinstance(it.args[0], ast.Name) and it.args[0].id in length \
+                    and isinstance(tg, ast.Tuple) and len(tg.elts) == 2 and all(isinstance(e, ast.Name) for e in tg.elts):
+                nm = it.args[0].id
+                return length[nm], [(tg.elts[0], lambda k: ast.copy_location(ast.Constant(k), st)), (tg.elts[1], lambda k, nm=nm: slot(nm, k, ast.Load(), st))]
+            if it.func.id == "zip" and len(it.args) >= 2 and all(isinstance(a, ast.Name) and a.id in length for a in it.args) \
+                    and len({length[a.id] for a in it.args}) == 1 and isinstance(tg, ast.Tuple) and len(tg.elts) == len(it.args) \
+                    and all(isinstance(e, ast.Name) for e in tg.elts):  # type: ignore[union-attr]
+                return length[it.args[0].id], [(e, (lambda k, nm=a.id: slot(nm, k, ast.Load(), st))) for e, a in zip(tg.elts, it.args)]  # type: ignore[union-attr]
+            if it.func.id == "range" and len(it.args) == 1 and isinstance(it.args[0], ast.Call) and u(it.args[0].func) == "len" \
+                    and len(it.args[0].args) == 1 and isinstance(it.args[0].args[0], ast.Name) and it.args[0].args[0].id in length and isinstance(tg, ast.Name):
+                return length[it.args[0].args[0].id], [(tg, lambda k: ast.copy_location(ast.Constant(k), st))]
+        return None
+
+    def own_jumps(body: list[ast.stmt]) -> bool:
+        """break / continue that belong to the loop whose body this is"""
+        def rec(n: ast.AST) -> bool:
+            if isinstance(n, (ast.Break, ast.Continue)):
+                return True
+            if isinstance(n, (ast.For, ast.AsyncFor, ast.While, ast.FunctionDef, ast.AsyncFunctionDef, ast.Lambda)):
+                return any(rec(x) for b_ in (getattr(n, "orelse", []) or []) for x in [b_]) if not isinstance(n, ast.Lambda) else False
+            return any(rec(c) for c in ast.iter_child_nodes(n))
+        return any(rec(x) for x in body)
+
+    def unroll(node: ast.AST) -> bool:
+        ok = True
+        for suite in suites(node):
+            i = 0
+            while i < len(suite):
+                st = suite[i]
+                ok = unroll(st) and ok
+                if isinstance(st, ast.For):
+                    plan = loop_plan(st)
+                    if plan is not None:
+                        n, binds = plan
+                        if st.orelse or own_jumps(st.body):
+                            return False
+                        out: list[ast.stmt] = []
+                        for k in range(n):
+                            consts = {t.id: v(k) for t, v in binds if isinstance(v(k), ast.Constant)
+                                      and not any(stores(t.id, b_) for b_ in st.body)}  # type: ignore[union-attr]
+                            for t, v in binds:
+                                out.append(ast.copy_location(ast.Assign(targets=[ast.Name(id=t.id, ctx=ast.Store())], value=v(k)), st))  # type: ignore[union-attr]
+                            for b_ in st.body:
+                                c_ = copy.deepcopy(b_)
+                                if consts:
+                                    # the index variable, where it indexes: a constant in this copy
+                                    for x in ast.walk(c_):
+                                        if isinstance(x, ast.Subscript) and isinstance(x.slice, ast.Name) and x.slice.id in consts:
+                                            x.slice = ast.copy_location(copy.deepcopy(consts[x.slice.id]), x.slice)
+                                out.append(c_)
+                        suite[i:i + 1] = out
+                        i += len(out)
+                        continue
+                i += 1
+        return ok
+
+    if not unroll(work):
+        return False
+
+    # ---- 3. bindings, unpackings, expanded comprehensions, constant subscripts
+    def expand_stmt(st: ast.stmt) -> list[ast.stmt] | None:
+        if isinstance(st, (ast.Assign, ast.AnnAssign)) and st.value is not None:
+            tgts = st.targets if isinstance(st, ast.Assign) else [st.target]
+            v = st.value
+            if len(tgts) == 1 and isinstance(tgts[0], ast.Name) and tgts[0].id in length:
+                nm, n = tgts[0].id, length[tgts[0].id]
+                if isinstance(v, (ast.List, ast.Tuple)):
+                    vals: list[ast.AST] = list(v.elts)
+                elif isinstance(v, ast.ListComp):
+                    g = v.generators[0]
+                    if not plain(v.elt):
+                        return None
+                    if isinstance(g.iter, ast.Name):
+                        vals = [subst(v.elt, {g.target.id: slot(g.iter.id, k, ast.Load(), st)}) for k in range(n)]  # type: ignore[union-attr]
+                    else:
+                        vals = [subst(v.elt, {g.target.id: ast.copy_location(ast.Subscript(  # type: ignore[union-attr]
+                            value=copy.deepcopy(g.iter), slice=ast.Constant(k), ctx=ast.Load()), st)}) for k in range(n)]
+                else:
+                    vals = [slot(v.id, k, ast.Load(), st) for k in range(n)]  # type: ignore[union-attr]
+                return [ast.copy_location(ast.Assign(targets=[slot(nm, k, ast.Store(), st)], value=vals[k]), st) for k in range(n)]
+            if len(tgts) == 1 and isinstance(tgts[0], (ast.Tuple, ast.List)) and isinstance(v, ast.Name) and v.id in length \
+                    and len(tgts[0].elts) == length[v.id] and all(isinstance(e, ast.Name) for e in tgts[0].elts):
+                return [ast.copy_location(ast.Assign(targets=[e], value=slot(v.id, k, ast.Load(), st)), st) for k, e in enumerate(tgts[0].elts)]
+        return [st]
+
+    def rewrite(node: ast.AST) -> bool:
+        for suite in suites(node):
+            i = 0
+            while i < len(suite):
+                if not rewrite(suite[i]):
+                    return False
+                rep = expand_stmt(suite[i])
+                if rep is None:
+                    return False
+                suite[i:i + 1] = rep
+                i += len(rep)
+        return True
+
+    if not rewrite(work):
+        return False
+
+    class Slots(ast.NodeTransformer):
+        def visit_Subscript(self, n: ast.Subscript) -> ast.AST:  # noqa: N802
+            if isinstance(n.value, ast.Name) and n.value.id in length and isinstance(n.slice, ast.Constant) and isinstance(n.slice.value, int) \
+                    and not isinstance(n.slice.value, bool) and -length[n.value.id] <= n.slice.value < length[n.value.id]:
+                return slot(n.value.id, n.slice.value % length[n.value.id], n.ctx, n)
+            return self.generic_visit(n)
+
+        def visit_Call(self, n: ast.Call) -> ast.AST:  # noqa: N802
+            self.generic_visit(n)
+            if isinstance(n.func, ast.Name) and n.func.id == "len" and len(n.args) == 1 and isinstance(n.args[0], ast.Name) and n.args[0].id in length:
+                return ast.copy_location(ast.Constant(length[n.args[0].id]), n)
+            if len(n.args) == 1 and not n.keywords and isinstance(n.args[0], (ast.GeneratorExp, ast.ListComp)):
+                c = n.args[0]
+                if len(c.generators) == 1 and not c.generators[0].ifs and not c.generators[0].is_async and isinstance(c.generators[0].iter, ast.Name) \
+                        and c.generators[0].iter.id in length and isinstance(c.generators[0].target, ast.Name) and plain(c.elt):
+                    g = c.generators[0]
+                    elts = [subst(c.elt, {g.target.id: slot(g.iter.id, k, ast.Load(), n)}) for k in range(length[g.iter.id])]  # type: ignore[union-attr]
+                    n.args = [ast.copy_location(ast.Tuple(elts=elts, ctx=ast.Load()), c)]
+            return n
+
+    work = Slots().visit(work)
+    # ---- 4. nothing else may touch the lists
+    if any(isinstance(x, ast.Name) and x.id in length for x in ast.walk(work)):
+        return False
+    ast.fix_missing_locations(work)
+    for f_ in ("body",):
+        setattr(root, f_, getattr(work, f_))
+    return True
+
+
 def check_3ph(run: Run, prog: Program) -> None:
     """C06.3PH: the three per-phase engines synchronise only their own inputs, so their outputs may start at
     different timestamps.  On every path of a round that reaches the send, the three samples whose values are
@@ -1239,6 +1444,15 @@ def check_3ph(run: Run, prog: Program) -> None:
     for nm in sorted(getattr(fn.node, "_inlined", ())):
         if raw.cls is not None and nm in raw.cls.methods:
             run.analysed(raw.cls.methods[nm].qual)
+    # the round written over a fixed-length list of the three phases is read slot by slot
+    known: dict[str, int] = {}
+    init = raw.cls.methods.get("__init__") if raw.cls is not None else None
+    for a_ in (x for x in ast.walk(init.node) if isinstance(x, ast.AnnAssign)) if init is not None else ():
+        ann = a_.annotation
+        if isinstance(a_.target, ast.Attribute) and u(a_.target.value) == "self" and isinstance(ann, ast.Subscript) and u(ann.value) in ("tuple", "Tuple") \
+                and isinstance(ann.slice, ast.Tuple) and not any(isinstance(e, ast.Constant) and e.value is Ellipsis for e in ann.slice.elts):
+            known[u(a_.target)] = len(ann.slice.elts)
+    scalarise_fixed_lists(fn.node, known)
     fl = Flow(prog, fn)
     cfg = fl.cfg
     normal = lambda a, b, lab: not lab.startswith("exc:")  # noqa: E731
@@ -1412,10 +1626,23 @@ def check_3ph(run: Run, prog: Program) -> None:
     # the sample: values in phase order from the final samples, stamped with one of them (after the drains) or the reference
     a = positional(cc, ["timestamp", "value_p1", "value_p2", "value_p3"])
 
+    stale_value: list[str] = []
+
     def value_of(e: ast.AST | None, i: int) -> bool:
         o = fl.origin1(e, cn) if e is not None else None
-        return o is not None and o.kind == "expr" and isinstance(o.node, ast.Attribute) and o.node.attr == "value" \
-            and phase_of(o.node.value, o.nid) == i
+        if not (o is not None and o.kind == "expr" and isinstance(o.node, ast.Attribute) and o.node.attr == "value"
+                and phase_of(o.node.value, o.nid) == i):
+            return False
+        # ... of the FINAL sample of the phase: whatever receive of phase i the round executed last is what the value is read
+        # from, i.e. every receive of the phase (the first one and the drain's) can supply it.  A drain that stores what it
+        # received somewhere else (the loop variable of `for s, rx in zip(samples, receivers)` instead of the slot) leaves the
+        # value that of the first, lagging sample
+        got = {id(unawait(q.node)) for q in fl.origin(o.node.value, o.nid) if q.kind == "expr"}
+        lost = [c for _n, c in recv[i] if id(c) not in got]
+        if lost:
+            stale_value.append(f"value_p{i + 1} is read from `{u(o.node.value)}`, which never holds what `{u(lost[0])}` "
+                               f"(line {getattr(lost[0], 'lineno', '?')}) received")
+        return not lost
 
     def stamp_ok(e: ast.AST | None) -> bool:
         if e is None:
@@ -1432,7 +1659,10 @@ def check_3ph(run: Run, prog: Program) -> None:
 
     ok = len(a) == 4 and len(cc.args) + len(cc.keywords) == 4 and all(value_of(a.get(f"value_p{i + 1}"), i) for i in range(3))
     run.check(ok, "C06.3PH", raw.qual, "Sample3Phase(.., p1.value, p2.value, p3.value) from this round's samples",
-              "the three-phase sample is not built from this round's three received samples in phase order",
+              "the three-phase sample is not built from this round's three received samples in phase order"
+              + (": " + "; ".join(stale_value[:2]) + " -- the drain advances the phase's receiver but its result is bound to another "
+                 "name (the loop variable instead of the per-phase slot), so the sample emitted under the common latest timestamp "
+                 "still carries the lagging phase's OLD value, and the samples read meanwhile are lost" if stale_value else ""),
               node=raw.node, file=raw.file)
     run.check(stamp_ok(a.get("timestamp")), "C06.3PH", raw.qual, "stamped with the (aligned) samples' timestamp",
               "the three-phase sample is not stamped with the timestamp its three samples carry when it is built (a timestamp "
@@ -1584,6 +1814,14 @@ def build_controls(prog: Program) -> list[tuple[str, str, str, str, str]]:
     if drains:
         lo, hi = drains[0].lineno, max(w.end_lineno or w.lineno for w in drains)
         add("phases zipped without a drain", ENGINE, src_patch(ph.module, lo, hi, lambda t: ""), "C06.3PH")
+    # 3PH: the drain advances the receiver but keeps the result in another name (the emitted value stays the lagging one)
+    if drains:
+        asg = next((x for x in ast.walk(drains[0]) if isinstance(x, ast.Assign) and isinstance(x.value, ast.Await) and isinstance(x.value.value, ast.Call)
+                    and method_call(x.value.value, None, "receive") and len(x.targets) == 1), None)
+        if asg is not None:
+            ttxt = seg(ph.module, asg.targets[0])
+            add("drain result bound to another name", ENGINE, stmt_patch(
+                ph, asg, lambda t, ttxt=ttxt: t.replace(f"{ttxt} =", "_drained =", 1)), "C06.3PH")
     mx = next((x for x in ast.walk(ph.node) if isinstance(x, ast.Assign) and isinstance(x.value, ast.Call) and u(x.value.func) == "max"
                and len(x.value.args) == 3), None)
     if mx is not None:
@@ -1718,7 +1956,7 @@ def build_controls(prog: Program) -> list[tuple[str, str, str, str, str]]:
 
         add("phases aligned only until they were in step once", ENGINE, src_patch(ph.module, loop3.lineno, hi3, once), "C06.3PH")
     if len(out) < 6:
-        raise AnalysisError(f"C06: only {len(out)} of 22 seeded controls could be derived from the source ({[o[0] for o in out]})")
+        raise AnalysisError(f"C06: only {len(out)} of 23 seeded controls could be derived from the source ({[o[0] for o in out]})")
     return out
 
 
